@@ -13,4 +13,55 @@ PROPS = {
         'assumptions': ['at_most thresholds are counts (>= 0); the count field name differs from the threshold and '
                         'capacity keys (as at every call site)'],
     },
+    'C01': {
+        'sidecars': ['contracts/c01_priority.py', 'contracts/c01_merge.py', 'contracts/c03_scoring.py',
+                     'contracts/c01_resolve.py'],
+        'targets': ['pedal.resolvers.simple:priority_offset', 'pedal.resolvers.simple:by_priority',
+                    'pedal.core.final_feedback:parse_feedback', 'pedal.core.final_feedback:FinalFeedback.merge',
+                    'pedal.core.final_feedback:FinalFeedback.__init__',
+                    'pedal.core.final_feedback:set_correct_no_errors',
+                    'pedal.core.final_feedback:FinalFeedback.finalize', 'pedal.core.feedback:Feedback.__bool__'],
+        'clause_exclude': [r'merge\.correct_', r'merge\.success_is', r'finalize\.correct_', r'finalize\.score_',
+                           r'finalize\.success_is'],
+        'native': 'c01', 'native_arg': {'prop': 'C01'},
+        'level': 'proof',
+        'explanation': 'Sort key (documented order, aliases, high/medium/low shift), suppression matching with both '
+                       'nested loops, eligibility, message installation and the default result are verified from the '
+                       'real source for all inputs; the composition through list.sort and the resolve loop is checked '
+                       'by the bounded stand-in B-resolve against a reference resolver typed from the statement.',
+        'trusted_base': ['list.sort stability and the resolve() loop composition: bounded stand-in B-resolve only',
+                         'Score.parse / to_percent_string: assumed contracts (B-score)',
+                         'resolve hooks (make_resolver) do not touch feedback lists or suppressions'],
+    },
+    'C02': {
+        'sidecars': ['contracts/c01_priority.py', 'contracts/c01_merge.py', 'contracts/c03_scoring.py',
+                     'contracts/c01_resolve.py'],
+        'targets': ['pedal.core.final_feedback:FinalFeedback.merge', 'pedal.core.final_feedback:FinalFeedback.finalize',
+                    'pedal.core.feedback:Feedback.__bool__', 'pedal.core.final_feedback:set_correct_no_errors'],
+        'clause_include': [r'merge\.correct_', r'merge\.success_is', r'merge\.cut', r'merge\.loop', r'merge\.frame',
+                           r'merge\.call', r'finalize\.correct_', r'finalize\.success_is', r'finalize\.frame',
+                           r'finalize\.raises', r'finalize\.call', r'__bool__', r'set_correct_no_errors'],
+        'native': 'c01', 'native_arg': {'prop': 'C02'},
+        'level': 'proof',
+        'explanation': 'merge: correct becomes the conjunction for eligible feedback and is untouched otherwise; '
+                       'finalize: correct is overridden to True only when nothing was shown. Composition over all '
+                       'feedback is the bounded stand-in B-resolve.',
+        'trusted_base': ['the resolve() loop composition: bounded stand-in B-resolve only'],
+    },
+    'C03': {
+        'sidecars': ['contracts/c01_priority.py', 'contracts/c01_merge.py', 'contracts/c03_scoring.py',
+                     'contracts/c01_resolve.py'],
+        'targets': ['pedal.core.scoring:Score.add_to_current', 'pedal.core.scoring:combine_scores',
+                    'pedal.core.final_feedback:FinalFeedback.finalize'],
+        'clause_include': [r'add_to_current', r'combine_scores', r'finalize\.score_', r'finalize\.call',
+                           r'finalize\.raises', r'finalize\.frame'],
+        'native': 'c01', 'native_arg': {'prop': 'C03'},
+        'level': 'proof',
+        'explanation': 'Score.add_to_current (operator x invert table) and combine_scores (fold invariant: total = sum '
+                       'of contributions, for every list length) verified; finalize installs that sum unless the '
+                       'default all-correct result applies. Valence/trigger selection in merge and Score.parse are '
+                       'covered by the bounded stand-ins B-resolve / B-score.',
+        'trusted_base': ['Score.parse readings of a score string (inverted, operator, value): assumed, B-score',
+                         'floats are exact reals; round(x, 2) is an uninterpreted function (A-float)'],
+    },
 }
